@@ -38,6 +38,16 @@ def pos_in_range(lines, line, column):
 
 
 FAMILIES = [
+    Family('TCtx01', attrs={'tree_node': Obj('PNode')},
+           methods={'create_value': FnSpec('TreeContextMixin.create_value', params=[('node', Obj('PNode'))],
+                                           ret=Obj('TVal01'), pure=True, assumed=True)}),
+    Family('TVal01', methods={'as_context': FnSpec('Value.as_context', ret=Obj('TCtx01'), pure=True)}),
+    Family('FuncVal01', attrs={'tree_node': Opt(Obj('PNode'))},
+           methods={'as_context': FnSpec('Value.as_context', ret=Obj('Ctx01'), pure=True)}),
+    Family('Ctx01', methods={
+        'goto': FnSpec('Context.goto', params=[('name_or_str', Obj('PNode')), ('position', POS)],
+                       ret=Seq(Obj('NameW')), pure=True, assumed=True),
+        'infer_node': FnSpec('Context.infer_node', params=[('node', Obj('PNode'))], ret=ANY, pure=True, assumed=True)}),
     Family('Script', attrs={'_code_lines': Seq(STR)},
            note='api.Script; _code_lines = parso.split_lines(code, keepends=True), never empty'),
 ]
@@ -228,9 +238,136 @@ CONTRACTS = [
 ] + _errors
 
 
+# ------------------------------------------------------------------ completion heuristics: no internal exception
+def _region_getattr_loop(func):
+    """_complete_getattr: the body of the loop over the return statements of a user-defined __getattr__"""
+    import ast
+    for s_ in ast.walk(func):
+        if isinstance(s_, ast.For) and 'iter_return_stmts' in ast.unparse(s_.iter):
+            return s_.body
+    return None
+
+
+def _replay_getattr(inp):
+    """complete()/search after an instance of a proxy class whose __getattr__ returns getattr(obj, <expression>)"""
+    from pyvc.replay import run_real
+    import jedi
+    code = ('class Target:\n    alpha = 1\n    def beta(self):\n        pass\n'
+            'class Proxy:\n    def __init__(self, o):\n        self.o = o\n'
+            '    def __getattr__(self, name):\n        return getattr(self.o, %s)\n'
+            'p = Proxy(Target())\np.' % inp['arg'])
+    lines = code.split('\n')
+
+    def run():
+        s = jedi.Script(code)
+        cs = s.complete(len(lines), len(lines[-1]))
+        return [(c.name, c.complete, c.type) for c in cs][:3]
+    out = run_real(run)
+    return {}, out
+
+
+_RS = 'return_stmt'
+_AE = 'return_stmt.children[1]'
+_TR = 'return_stmt.children[1].children[1]'
+_AL = 'return_stmt.children[1].children[1].children[1]'
+_complete_getattr = Contract(
+    id='C01._complete_getattr.loop', prop='C01',
+    clause='(c) no internal exception: the __getattr__ heuristic of attribute completion inspects a return statement of '
+           'ANY shape (whatever expression is passed to getattr) without an index, attribute or type error - it either '
+           'skips the statement or completes on the proxied object',
+    file='jedi/api/completion.py', qualname='_complete_getattr', region=_region_getattr_loop,
+    params={'user_context': ANY, 'instance': ANY},
+    free={'return_stmt': Obj('PNode'), 'tree_node': Obj('PNode'), 'func': Obj('FuncVal01'), 'names': ANY, 'functions': ANY},
+    families=['PNode', 'FuncVal01', 'Ctx01', 'NameW'], ret=ANY, raises={},
+    requires=[
+        # parso grammar shapes (assumed, stated): return_stmt = 'return' expr; atom_expr = atom trailer+; trailer has
+        # brackets / a dot and a name; names are leaves; arglist is an inner node
+        'implies(%s.type == "return_stmt", not %s.is_leaf and len(%s.children) == 2)' % (_RS, _RS, _RS),
+        'implies(%s.type == "return_stmt" and %s.type == "atom_expr", not %s.is_leaf and len(%s.children) >= 2 '
+        'and not %s.is_leaf and len(%s.children) >= 2)' % (_RS, _AE, _AE, _AE, _TR, _TR),
+        'implies(%s.type == "return_stmt" and %s.type == "atom_expr" and %s.children[0].type == "name", '
+        '%s.children[0].is_leaf)' % (_RS, _AE, _AE, _AE),
+        'implies(%s.type == "return_stmt" and %s.type == "atom_expr" and %s.type == "arglist", not %s.is_leaf)'
+        % (_RS, _AE, _AL, _AL),
+    ],
+    ensures=['True'],
+    witness={}, replay=_replay_getattr, concrete_only=True, concrete_ensures=['True'],
+    witness_library=[{'arg': a} for a in ('name', '"do_" + name', 'name.lower()', '*name', 'name=name', 'name, None',
+                                          '"x"', '(name)', 'name[0]', 'self.o')],
+    notes='safety obligations only (IndexError, AttributeError on a node of the wrong kind, None dereference); goto / '
+          'infer_node / complete_trailer are abstract; the replay runs complete() on a proxy class',
+)
+
+
+# ------------------------------------------------------------------ leaf -> context: every scope kind is handled
+def _replay_create_context(inp):
+    """every positional query on every position of a small module that contains the scope kind under test"""
+    from pyvc.replay import run_real
+    import jedi
+    code = inp['code']
+    lines = code.split('\n')
+
+    def run():
+        s = jedi.Script(code)
+        n = 0
+        for ln, text in enumerate(lines, 1):
+            for col in range(len(text) + 1):
+                s.get_context(ln, col)
+                s.goto(ln, col)
+                s.infer(ln, col)
+                n += 1
+        names = s.get_names(all_scopes=True, definitions=True, references=True)
+        return n + len(names)
+    out = run_real(run)
+    return {}, out
+
+
+_SCOPE_KINDS = '("file_input", "classdef", "funcdef", "lambdef", "comp_for", "sync_comp_for")'
+_from_scope_node = Contract(
+    id='C01.create_context.from_scope_node', prop='C01',
+    clause='(c) no internal exception: every kind of scope node that the enclosing-scope walk can hand over (module, '
+           'class, function, lambda, synchronous AND asynchronous comprehension) is turned into a context - the '
+           '"scope that was not managed" exception is unreachable',
+    file='jedi/inference/context.py', qualname='TreeContextMixin.create_context.from_scope_node',
+    params={'scope_node': Obj('PNode'), 'is_nested': BOOL},
+    free={'self': Obj('TCtx01'), 'node': Obj('PNode'),
+          'parent_scope': FnSpec('parent_scope', params=[('node', Obj('PNode'))], ret=Obj('PNode'), pure=True,
+                                 assumed=False, ensures=['result.type in %s' % _SCOPE_KINDS,
+                                                         'implies(result.type == "file_input", result == self.tree_node)',
+                                                         'implies(result.type in ("comp_for", "sync_comp_for"), '
+                                                         'not result.is_leaf and len(result.children) >= 1)'],
+                                 note='the nested enclosing-scope walk: returns is_scope nodes and comprehension nodes '
+                                      '(comp_for for async comprehensions) inside the tree of this context'),
+          'from_scope_node': FnSpec('from_scope_node', params=[('scope_node', Obj('PNode')), ('is_nested', BOOL)],
+                                    defaults={'is_nested': True}, ret=Obj('TCtx01'), pure=True, assumed=False,
+                                    note='recursive call on the parent scope (same contract, by induction on depth)')},
+    families=['PNode', 'TCtx01', 'TVal01'], ret=Obj('TCtx01'), raises={},
+    requires=['scope_node.type in %s' % _SCOPE_KINDS,
+              'implies(scope_node.type == "file_input", scope_node == self.tree_node)',
+              'implies(scope_node.type in ("comp_for", "sync_comp_for"), not scope_node.is_leaf and '
+              'len(scope_node.children) >= 1 and scope_node.parent is not None)'],
+    ensures=['True'], allow_callee_exceptions=False,
+    witness={}, replay=_replay_create_context, concrete_only=True, concrete_ensures=['True'],
+    witness_library=[
+        {'code': 'async def f(y):\n    a = [x async for x in y]\n    b = {x: 1 async for x in y}\n    return a, b\n'},
+        {'code': 'async def g(y):\n    return sum(x async for x in y)\n'},
+        {'code': 'def f(y):\n    return [x for x in y if x], {x for x in y}, (lambda z: z)\n'},
+        {'code': 'class A:\n    v = [i for i in range(3)]\n    def m(self, p=lambda: 1):\n        return p\n'},
+    ],
+    notes='nested function of create_context; parent_scope is abstract with the kinds it can return as its contract',
+)
+
+
 def dynamic_contracts(repo):
     """Signature.index is computed lazily when a result of get_signatures() is looked at: the exception-freedom
     (safety) obligations of CallDetails.calculate_index are shared with C11 (bounded shapes: n arguments, m params)"""
     from contracts import c11, c10
     # exception-freedom of the import-path rewriting (IndexError on an empty import path): shared with C10
-    return list(c11.CALC) + [c10._importer_init]
+    return list(c11.CALC) + [c10._importer_init, _complete_getattr, _from_scope_node]
+
+
+def register(reg):
+    reg.names['CompForContext'] = FnSpec('CompForContext', params=[('parent_context', Obj('TCtx01')), ('comp_for', Obj('PNode'))],
+                                         ret=Obj('TCtx01'), pure=True, assumed=True)
+    reg.names['complete_trailer'] = FnSpec('complete_trailer', params=[('user_context', ANY), ('values', ANY)], ret=ANY,
+                                           pure=True, assumed=True, note='attribute completion on the proxied values')
